@@ -188,6 +188,40 @@ pub fn run(ctx: &Ctx, st: &mut Stats) {
             st.count("chain_links");
         }
     }
+    // grazing corner of the domain: |lat| = 45 (and just inside) in the five days around the local summer solstice of
+    // EVERY year — the deepest twilight of the named methods (Egyptian Imsaak, 21 deg) barely exists there in the
+    // early centuries, its hour angle is within a degree of 180 — each as a full chain of 24 unit GMT steps
+    {
+        let lats: &[f64] = if ctx.thorough { &[45.0, 44.9995, 44.999, 44.998, 44.99, 44.9] } else { &[45.0, 44.999] };
+        let mut idx2 = 0u64;
+        for year in 1600..=2399 {
+            for &la0 in lats {
+                for sgn in [1.0, -1.0] {
+                    idx2 += 1;
+                    if !ctx.mine(idx2) {
+                        continue;
+                    }
+                    let la = la0 * sgn;
+                    let mo = if la > 0.0 { 6 } else { 12 };
+                    let lon = r.range(-180.0, 180.0);
+                    let el = gen::any_elev(&mut r);
+                    for dd in 0..5u32 {
+                        let date = d2s(ymd(year, mo, 19 + dd));
+                        for m in 0..9usize {
+                            if !ctx.thorough && (m + dd as usize + year as usize) % 3 != 0 && m != 1 && m != 2 {
+                                continue; // quick: a third of the methods per day, the two Egyptian methods (deepest twilights) always
+                            }
+                            for g in -12..12 {
+                                let c = Case { site: Site::new(la, lon, el, g as f64), date: date.clone(), p: PSpec::new(m), kind: "gmt".into(), d: X(1.0) };
+                                check(ctx, st, &c);
+                            }
+                            st.count("grazing_corner_chains(|lat| 45, solstice, 24 unit steps)");
+                        }
+                    }
+                }
+            }
+        }
+    }
     for k in 0..n {
         let c = gen_case(&mut r);
         check(ctx, st, &c);
